@@ -1012,7 +1012,10 @@ func (dsc *dataStoreCommand) expire(keyName string, expiration time.Time, nx, xx
 }
 
 func (dsc *dataStoreCommand) expireTime(keyName string) (expiration time.Time, valid int) {
-	sk, exists := dsc.getKeyObject(keyName)
+	dsc.lock()
+	defer dsc.unlock()
+
+	sk, exists := dsc.getKeyObjectUnlocked(keyName)
 	if !exists {
 		valid = -2
 		return
